@@ -8,7 +8,7 @@ use serde::{Deserialize, Serialize};
 use serde_json::json;
 use std::time::Duration;
 
-pub const RULE: &str = "the spin options and their ranges are read from the engine's own 'uci' answer (name, min, max - not hard-coded). A session = 2-12 steps over {setoption <spin option> value v with v in {min, min+1, default, max-1, max, interior values}, isready, ucinewgame, position <generated game>, go depth 2-4 (also with clocks after Move Overhead was set)} in any order, before and between searches, then quit. Oracle on the shipped binary: every isready is answered by readyok; every go by exactly one bestmove that is legal in the position (reference model); nothing that looks like the panic hook's output; after quit the process exits with status 0. In-process twin (checked build): tt.resize(v) for boundary and interior sizes followed by a search. Non-trivial = session that searches after setting Hash to a boundary value or after two different Hash values; distinct by session.";
+pub const RULE: &str = "the spin options and their ranges are read from the engine's own 'uci' answer (name, min, max - not hard-coded). A session = 2-12 steps over {setoption <spin option> value v with v in {min, min+1, default, max-1, max, interior values}, isready, ucinewgame, position <generated game>, go depth 2-4 (also with clocks after Move Overhead was set)} in any order, before and between searches, then quit. Oracle on the shipped binary: every isready is answered by readyok; every go by exactly one bestmove that is legal in the position (reference model); nothing that looks like the panic hook's output; after quit the process exits with status 0. A 'long_sessions' part sets Hash (mostly to its smallest advertised value) and runs 256-300 shallow searches in a row. In-process twin (checked build): tt.resize(v) for boundary and interior sizes followed by a search. Non-trivial = session that searches after setting Hash to a boundary value or after two different Hash values; distinct by session.";
 
 #[derive(Serialize, Deserialize, Clone, Debug, PartialEq)]
 pub enum Step {
@@ -264,6 +264,39 @@ pub fn run(run: &mut Run) -> &'static str {
     run.proptest_part("sessions", RULE, strat, cases, move |c: &Case, st: &mut Stats| match c {
         Case::Tape(t) => run_session(&from_tape(t, spins_ref), spins_ref, st),
         Case::Explicit { steps } => run_session(steps, spins_ref, st),
+    });
+    // long sessions on a boundary value: 300 shallow searches in a row after setting Hash (the
+    // smallest advertised size weighs most), no ucinewgame in between
+    let cases = tier.pick(24, 400);
+    let strat = tape(12..60).prop_map(Case::Tape);
+    run.proptest_part("long_sessions", RULE, strat, cases, move |c: &Case, st: &mut Stats| {
+        let steps: Vec<Step> = match c {
+            Case::Tape(data) => {
+                let mut t = Tape::new(data);
+                let hash = spins_ref.iter().find(|s| s.name == "Hash");
+                let v = match (hash, t.pick(4)) {
+                    (Some(h), 0 | 1) => h.min,
+                    (Some(h), 2) => h.min + 1.min(h.max - h.min),
+                    (Some(h), _) => h.min + (t.pick(4) as u64).min(h.max - h.min),
+                    (None, _) => 1,
+                };
+                let mut steps = vec![Step::Set { option: "Hash".into(), value: v }];
+                let n = [256usize, 257, 300][t.pick(3)];
+                for i in 0..n {
+                    if i % 64 == 0 {
+                        if let Some((fen, moves, _, _)) = gen_game(&mut t, 1, 6) {
+                            steps.push(Step::Position { fen, moves });
+                        }
+                    }
+                    steps.push(Step::Go { depth: 1 + (i % 2) as u8, clocks: None });
+                }
+                steps.push(Step::IsReady);
+                steps
+            }
+            Case::Explicit { steps } => steps.clone(),
+        };
+        st.class("long_session");
+        run_session(&steps, spins_ref, st)
     });
     run.workers = old;
     RULE
